@@ -69,7 +69,7 @@ func registerVx(e *Engine) {
 		// the per-byte inputs the native side reads.
 		out := make([]Value, n)
 		for i := 0; i < int(n); {
-			if i+4 <= int(n) {
+			if i+4 <= int(n) && ex.replay == nil {
 				var names [4]string
 				for j := 0; j < 4; j++ {
 					names[j] = ex.inputName(fmt.Sprintf("%s[%d]", name, i+j))
@@ -647,6 +647,11 @@ func init() {
 			v := def
 			if pv, ok := ex.eng.params[name]; ok {
 				v = pv
+			}
+			if ex.replay != nil {
+				if rv, ok := ex.replay["param:"+name]; ok {
+					v = int64(rv)
+				}
 			}
 			ex.choices["param:"+name] = uint64(v)
 			return K(64, uint64(v))
